@@ -65,10 +65,37 @@ pub fn to_payload(key: &Key, providers: &[u32]) -> Payload {
             Asn::from_u32(*asn),
             RouterKeyInfo::new(Bytes::from(spki.clone())).expect("key info"),
         ),
+        Key::Aspa { customer } if providers.len() > ProviderAsns::MAX_COUNT => oversized_aspa(*customer, providers),
         Key::Aspa { customer } => Payload::aspa(
             Asn::from_u32(*customer),
             ProviderAsns::try_from_iter(providers.iter().map(|p| Asn::from_u32(*p))).expect("providers"),
         ),
+    }
+}
+
+/// An ASPA record with more providers than the library's own constructor
+/// allows. Such a record reaches an application the way it reaches a relay:
+/// read off the wire from another cache (the readers accept it) and handed on
+/// as source data.
+fn oversized_aspa(customer: u32, providers: &[u32]) -> Payload {
+    use futures_util::FutureExt;
+    let mut bytes = Vec::with_capacity(12 + 4 * providers.len());
+    bytes.extend_from_slice(&[2, 11, 1, 0]);
+    bytes.extend_from_slice(&((12 + 4 * providers.len()) as u32).to_be_bytes());
+    bytes.extend_from_slice(&customer.to_be_bytes());
+    for p in providers {
+        bytes.extend_from_slice(&p.to_be_bytes());
+    }
+    let mut rd: &[u8] = &bytes;
+    let pdu = rpki::rtr::pdu::Payload::read(&mut rd)
+        .now_or_never()
+        .expect("reading from a slice never waits");
+    match pdu {
+        Ok(Ok(Some(pdu))) => match pdu.to_payload() {
+            Ok((_, p)) => p,
+            Err(_) => crate::common::harness_fail("oversized ASPA PDU refused by to_payload"),
+        },
+        _ => crate::common::harness_fail("oversized ASPA PDU not readable"),
     }
 }
 
@@ -187,6 +214,14 @@ impl Universe {
             vec![65103, 65101, 65102],
             vec![65100, 65100, 4_200_000_000, 0],
         ];
+        let mut provider_sets = provider_sets;
+        // rarely: a record a relay picked up from another cache with more
+        // providers than the library's own constructor accepts
+        if n_aspa > 0 && t.chance(1, 24) {
+            let n = 16381 + t.choose(3000) as u32;
+            provider_sets.push((0..n).map(|i| 100_000 + i).collect());
+            provider_sets.push((0..n).map(|i| 100_000 + i).collect());
+        }
         Universe { keys, provider_sets, big }
     }
 
